@@ -8,7 +8,8 @@
    PutBeforeCall = TRUE is the sensitivity variant (slice returned to the pool before the host
    function has read it): NoSharedArgs and Isolation must fail. *)
 EXTENDS Integers, Sequences, FiniteSets, TLC
-CONSTANTS Runs, Calls, PutBeforeCall
+CONSTANTS Runs, Calls, PutBeforeCall,
+          PutAfterGo     \* sensitivity variant: the slice of a call started with `go` is returned to the pool at once
 VARIABLES pc,        \* per run: "enter" | "get" | "call" | "put" | "done"
           ncall,     \* per run: calls completed
           held,      \* per run: slice id it holds (0: none)
@@ -16,41 +17,56 @@ VARIABLES pc,        \* per run: "enter" | "get" | "call" | "put" | "done"
           nslices,   \* slices ever created
           content,   \* per slice: run whose arguments it currently contains (0: none)
           out,       \* per run: sequence of values the host function computed for it (the run id it saw)
+          detached,  \* slices handed to a host function started with `go` (never returned to the pool)
           hist       \* order of the gate events (run ids): the schedule, exported for replay
-vars == <<pc, ncall, held, free, nslices, content, out, hist>>
+vars == <<pc, ncall, held, free, nslices, content, out, detached, hist>>
 R == 1..Runs
 Init == /\ pc = [r \in R |-> "enter"] /\ ncall = [r \in R |-> 0] /\ held = [r \in R |-> 0]
-        /\ free = {} /\ nslices = 0 /\ content = <<>> /\ out = [r \in R |-> <<>>] /\ hist = <<>>
+        /\ free = {} /\ nslices = 0 /\ content = <<>> /\ out = [r \in R |-> <<>>] /\ detached = {} /\ hist = <<>>
 Enter(r) == /\ pc[r] = "enter" /\ ncall[r] < Calls
             /\ pc' = [pc EXCEPT ![r] = "get"] /\ hist' = Append(hist, r)
-            /\ UNCHANGED <<ncall, held, free, nslices, content, out>>
+            /\ UNCHANGED <<ncall, held, free, nslices, content, out, detached>>
 \* args = fn.argsPool.Get(); fill with the run's own arguments
 GetFill(r, s) == /\ pc[r] = "get"
                  /\ \/ s \in free /\ free' = free \ {s} /\ UNCHANGED nslices /\ content' = [content EXCEPT ![s] = r]
                     \/ s = nslices + 1 /\ nslices' = s /\ UNCHANGED free /\ content' = Append(content, r)
                  /\ held' = [held EXCEPT ![r] = s]
                  /\ pc' = [pc EXCEPT ![r] = IF PutBeforeCall THEN "put" ELSE "call"]
-                 /\ hist' = Append(hist, r) /\ UNCHANGED <<ncall, out>>
+                 /\ hist' = Append(hist, r) /\ UNCHANGED <<ncall, out, detached>>
 \* the host function reads the slice
 Call(r) == /\ pc[r] = "call"
            /\ out' = [out EXCEPT ![r] = Append(@, content[held[r]])]
            /\ pc' = [pc EXCEPT ![r] = IF PutBeforeCall THEN "enter" ELSE "put"]
            /\ ncall' = IF PutBeforeCall THEN [ncall EXCEPT ![r] = @ + 1] ELSE ncall
            /\ held' = IF PutBeforeCall THEN [held EXCEPT ![r] = 0] ELSE held
-           /\ UNCHANGED <<free, nslices, content, hist>>
+           /\ UNCHANGED <<free, nslices, content, detached, hist>>
+\* `go f(args)`: the host function runs in its own goroutine and reads the slice LATER; the VM goes on at
+\* once and never returns the slice to the pool
+GoCall(r) == /\ pc[r] = "call" /\ ~PutBeforeCall
+             /\ detached' = detached \cup {held[r]}
+             /\ free' = IF PutAfterGo THEN free \cup {held[r]} ELSE free
+             /\ pc' = [pc EXCEPT ![r] = "enter"] /\ ncall' = [ncall EXCEPT ![r] = @ + 1] /\ held' = [held EXCEPT ![r] = 0]
+             /\ UNCHANGED <<nslices, content, out, hist>>
+\* the goroutine's host function reads its arguments: it must find those of the run that started it
+HostAsync(s) == /\ s \in detached /\ detached' = detached \ {s}
+                /\ out' = [out EXCEPT ![content[s]] = Append(@, content[s])]
+                /\ UNCHANGED <<pc, ncall, held, free, nslices, content, hist>>
 Put(r) == /\ pc[r] = "put"
           /\ free' = free \cup {held[r]}
           /\ IF PutBeforeCall THEN pc' = [pc EXCEPT ![r] = "call"] /\ UNCHANGED <<ncall, held>>
              ELSE pc' = [pc EXCEPT ![r] = "enter"] /\ ncall' = [ncall EXCEPT ![r] = @ + 1] /\ held' = [held EXCEPT ![r] = 0]
-          /\ hist' = Append(hist, r) /\ UNCHANGED <<nslices, content, out>>
+          /\ hist' = Append(hist, r) /\ UNCHANGED <<nslices, content, out, detached>>
 Finish(r) == /\ pc[r] = "enter" /\ ncall[r] = Calls /\ pc' = [pc EXCEPT ![r] = "done"]
-             /\ UNCHANGED <<ncall, held, free, nslices, content, out, hist>>
-Next == \E r \in R : Enter(r) \/ (\E s \in 1..(nslices + 1) : GetFill(r, s)) \/ Call(r) \/ Put(r) \/ Finish(r)
+             /\ UNCHANGED <<ncall, held, free, nslices, content, out, detached, hist>>
+Next == \/ \E r \in R : Enter(r) \/ (\E s \in 1..(nslices + 1) : GetFill(r, s)) \/ Call(r) \/ GoCall(r) \/ Put(r) \/ Finish(r)
+        \/ \E s \in 1..nslices : HostAsync(s)
 Spec == Init /\ [][Next]_vars
 AllDone == \A r \in R : pc[r] = "done"
 
 \* a pooled slice is held by at most one in-flight call
 NoHeldInPool == PutBeforeCall \/ \A a \in R : held[a] # 0 => held[a] \notin free
+\* a slice a goroutine still has to read is neither in the pool nor held by a run
+DetachedNotPooled == detached \cap free = {} /\ \A a \in R : held[a] # 0 => held[a] \notin detached
 Exclusive == \A a, b \in R : (a # b /\ held[a] # 0 /\ held[b] # 0) => held[a] # held[b]
 \* every host call of run r saw r's own arguments
 Isolation == \A r \in R : \A k \in DOMAIN out[r] : out[r][k] = r
